@@ -201,8 +201,19 @@ impl WriteAheadLog {
     /// Truncate segments whose max sequence is strictly before `seq`.
     pub async fn truncate_before(&mut self, seq: u64) -> Result<()> {
         let segments = list_segments(&self.config.wal_dir)?;
+        // `open` derives the next sequence number from the newest segment that holds an
+        // entry. Keep that segment even if everything in it is older than `seq`: with an
+        // empty active segment (crash right after rotation) removing it would restart
+        // numbering at 1, below sequence numbers that were already acknowledged.
+        let mut newest_non_empty = None;
+        for segment in segments.iter().rev() {
+            if last_sequence_for_segment(&segment.path)?.is_some() {
+                newest_non_empty = Some(segment.id);
+                break;
+            }
+        }
         for segment in segments {
-            if segment.id >= self.current_segment_id {
+            if segment.id >= self.current_segment_id || Some(segment.id) == newest_non_empty {
                 break;
             }
             if let Some(last_seq) = last_sequence_for_segment(&segment.path)? {
